@@ -14,8 +14,12 @@ CLAIMS = {
          "Tie: the real client (hook feature zvt_verif) under tokio's paused clock against a simulated terminal: all histories over begin/commit/cancel x "
          "tokens x terminal outcomes to depth 3 x max 0..3, random walks to 40; results, per-connection write logs and virtual times compared with the "
          "extracted model; oracle = the abstract token map with byte-exact expected requests.", "DESIGN.md section 6, C07"),
- "C08": ("Coq: released amount = pre - min(pre, final) <= pre, 0 when final is larger, for ALL naturals (no bound); summary = last status "
-         "information (fold lemma); abort reported with its code. Tie: amounts at 0, 1, pre-1, pre, pre+1, 10^12-1, 2^63, 2^64-1 x currencies x "
+ "C08": ("Coq, end to end (ClientWire.v): for EVERY configuration (amount < 10^12, currency < 10^4), open map, CP437 token, final amount over all of N, world and time, "
+         "the first thing a commit adds to the log is a request on the connection in use that the layout's own decoder reads back as exactly: the receipt number recorded for "
+         "the token, pre-authorised minus final amount truncated at zero, payment type 0x40, the configured currency, the token (the request is inside the class of C01, proved "
+         "field by field for all values); the same for the Reservation of begin (configured amount and currency) and the PreAuthReversal of cancel; "
+         "released amount = pre - min(pre, final) for ALL naturals; summary = last status information (fold lemma); abort reported with its code. "
+         "Tie: amounts at 0, 1, pre-1, pre, pre+1, 10^12-1, 2^63, 2^64-1 x currencies x "
          "tokens x receipts; the requests on the wire are compared byte-exactly with the reference encoding of the specified request.", "DESIGN.md section 6, C08"),
  "C09": ('Coq, FULL at the level of whole histories (ClientLog.v): for every configuration, every history of public calls and every scripted terminal the event log satisfies '
          'log_safe (nothing is written to a connection after it was dropped, every write goes to a connection opened before, every open uses a new connection) and log_reg (the first bytes '
